@@ -604,6 +604,9 @@ def write_evidence(prop, tier, base_seed, agg, violations, wall, extra):
                      "CPython gc/weakref/pickle/copy"],
             "stub": []}),
     }
+    counts = getattr(prop, "evidence_counts", None)
+    if counts is not None:
+        cov.update(counts(agg))
     cov.update(extra)
     ev = {
         "property_id": prop.ID,
